@@ -153,6 +153,8 @@ def report(c, what, ev, causes, case):
     the trace specification.  With several candidate causes the one with a known finding of the same kind is named (a failure
     without any abnormal PDU, or with unknown causes only, is never matched)."""
     rc = result_class(ev)
+    if ev.get("e") in ("txalloc", "txcommit", "llsend", "drain", "bufs", "maxtx"):
+        causes = []                             # transmit side calls: what the central sent does not matter
     cands = causes or ["-"]
     known = [k["signature"] for k in c.known if k.get("status") == "known"]
     pick = None
@@ -195,6 +197,8 @@ def run_batch(c, exe, tag, execs, counts, kind):
             idx = max(i for i, (first, _) in enumerate(execs_ev) if first <= ln)
             first, evs = execs_ev[idx]
             ev = evs[ln - first]
+            if ev["e"] != "Crash" and ln - first + 1 < len(evs) and evs[ln - first + 1]["e"] == "Crash":
+                ev = evs[ln - first + 1]       # the call that returned the unexplained result also damaged memory: report that
             if ev["e"] == "Crash":
                 n_crash += 1
             failed.add(base + idx)
@@ -333,6 +337,7 @@ def run(c):
 
 def replay(c, exe):
     case = json.load(open(c.replay))["case"]
+    vlib.model_check(c, "L2capSdu", "L2capSdu.tla", "MCTx.cfg", workers=JOBS)    # the oracle itself, for the evidence record
     sp = vlib.write_lines(os.path.join(c.build_dir, "replay.txt"), case["script"])
     tp = os.path.join(c.build_dir, "replay.ndjson")
     env = dict(ASAN)
@@ -347,6 +352,9 @@ def replay(c, exe):
     c.sample([{k: x for k, x in ev.items() if k != "tx"} for ev in evs[-6:]])
     mm = parse_mismatches(v.out)
     for ln in v.mismatch_lines:
-        report(c, "replayed case", evs[ln - 1], mm.get(ln, ("", []))[1], case)
+        ev = evs[ln - 1]
+        if ev["e"] != "Crash" and ln < len(evs) and evs[ln]["e"] == "Crash":
+            ev = evs[ln]
+        report(c, "replayed case", ev, mm.get(ln, ("", []))[1], case)
     if not v.mismatch_lines:
         c.note("replayed case is accepted by the specification")
